@@ -5,6 +5,7 @@ import Mathlib.Tactic.Ring
 import BioscrapeModel.Proofs.Laws
 import BioscrapeModel.Proofs.Sampling
 import BioscrapeModel.Properties.C05
+import BioscrapeModel.Properties.C01
 
 /-
 C06 — every stochastic trajectory is a feasible reaction path.
@@ -304,6 +305,194 @@ theorem safe_full_complement (mode : Mode) (n : Nat) (U D : List (List Int)) (R 
   have h2 := (safeInputs_requirement n U D R r s req hmem).2.2.1
   have : ((needOf R s r : Nat) : α) ≤ (req : α) := by exact_mod_cast h2
   exact le_trans this h1
+
+
+/-! ### Mass-action networks never report a negative count -/
+
+section NonNeg
+open Bioscrape.C01
+
+/-- a vector of natural numbers (non-negative whole counts). -/
+def IsNatVec (x : List α) : Prop := ∀ v ∈ x, ∃ n : Nat, v = (n : α)
+
+theorem vecGet_nat (x : List α) (hx : IsNatVec x) (i : Nat) : ∃ n : Nat, vecGet x i = (n : α) := by
+  unfold vecGet
+  by_cases hi : i < x.length
+  · rw [List.getD_eq_getElem?_getD, List.getElem?_eq_getElem hi]
+    exact hx _ (List.getElem_mem hi)
+  · rw [List.getD_eq_getElem?_getD, List.getElem?_eq_none (not_lt.mp hi)]
+    exact ⟨0, by simp⟩
+
+theorem ff_nonneg (y : α) (m : Nat) : 0 ≤ ff y m := by
+  unfold ff
+  apply List.prod_nonneg
+  intro v hv
+  obtain ⟨j, _, rfl⟩ := List.mem_map.mp hv
+  exact le_max_right _ _
+
+/-- the stochastic mass-action propensity of a state of whole counts is not negative (rate constant ≥ 0), and
+when it is not zero every reactant is present in at least its multiplicity. -/
+theorem massAction_stoch_nat (k : Nat) (R : List Nat) (x p : List α) (t : α) (hx : IsNatVec x)
+    (hk : 0 ≤ vecGet p k) :
+    0 ≤ (createMassAction (α := α) k R).stoch (vecGet x) (vecGet p) t ∧
+    ((createMassAction (α := α) k R).stoch (vecGet x) (vecGet p) t ≠ 0 →
+      ∀ s, ∃ n : Nat, vecGet x s = (n : α) ∧ R.count s ≤ n) := by
+  have hnn : ∀ s, 0 ≤ vecGet x s := by
+    intro s; obtain ⟨n, hn⟩ := vecGet_nat x hx s; rw [hn]; exact Nat.cast_nonneg n
+  rw [massAction_stoch k R (vecGet x) (vecGet p) t hnn]
+  unfold stochSpec
+  refine ⟨mul_nonneg hk (Finset.prod_nonneg (fun s _ => ff_nonneg _ _)), ?_⟩
+  intro hne s
+  obtain ⟨n, hn⟩ := vecGet_nat x hx s
+  refine ⟨n, hn, ?_⟩
+  by_contra hlt
+  have hlt' : n < R.count s := not_le.mp hlt
+  have hmem : s ∈ R.toFinset := by
+    rw [List.mem_toFinset]
+    exact List.count_pos_iff.mp (by omega)
+  apply hne
+  apply mul_eq_zero_of_right
+  apply Finset.prod_eq_zero hmem
+  rw [hn]
+  exact ff_eq_zero_of_lt n _ hlt'
+
+/-- a plain mass-action network without rules whose reactions remove no more copies of a species (immediate
+and delayed parts together) than they list it among their reactants. -/
+structure MANet (m : SimModel α) (ks : List Nat) (Rs : List (List Nat)) (n : Nat) : Prop where
+  plain : m.safe = false
+  norules : m.rules = []
+  props : m.props = List.zipWith (fun k R => createMassAction k R) ks Rs
+  lens : ks.length = Rs.length
+  colsU : ∀ j, j < Rs.length → (m.U.getD j []).length = n
+  colsD : ∀ j, j < Rs.length → (m.D.getD j []).length = n
+  consume : ∀ j, j < Rs.length → ∀ i, i < n →
+    -(((Rs.getD j []).count i : Nat) : Int) ≤ entry m.U i j + entry m.D i j
+
+/-- what the loop keeps: whole, non-negative counts in the current state and in every reported row. -/
+structure NatState (n : Nat) (s : LoopState σ α) : Prop where
+  cur : IsNatVec s.x
+  len : s.x.length = n
+  rows : ∀ r ∈ s.rows, IsNatVec r
+
+theorem arraySum_eq_sum (a : List α) : arraySum a = a.sum := by
+  unfold arraySum
+  rw [List.sum_eq_foldl]
+
+theorem natState_arrive (times : List α) (n : Nat) (s : LoopState σ α) (p : List α) (T : α) (g' : σ) (h : NatState n s) :
+    NatState n (arrive times s s.x p T g') := by
+  unfold arrive
+  refine ⟨h.cur, h.len, ?_⟩
+  intro r hr
+  simp only [List.mem_append, replicateRow, List.mem_replicate] at hr
+  rcases hr with hr | ⟨_, rfl⟩
+  · exact h.rows r hr
+  · exact h.cur
+
+theorem addCol_getD (x c d : List α) (n i : Nat) (hx : x.length = n) (hc : c.length = n) (hd : d.length = n) (hi : i < n) :
+    (addCol x (addCol c d)).getD i 0 = x.getD i 0 + (c.getD i 0 + d.getD i 0) := by
+  unfold addCol
+  simp only [List.getD_eq_getElem?_getD, List.getElem?_zipWith]
+  rw [List.getElem?_eq_getElem (by omega), List.getElem?_eq_getElem (by omega), List.getElem?_eq_getElem (by omega)]
+  simp
+
+theorem addCol_length' (x c d : List α) (n : Nat) (hx : x.length = n) (hc : c.length = n) (hd : d.length = n) :
+    (addCol x (addCol c d)).length = n := by
+  unfold addCol
+  simp [hx, hc, hd]
+
+theorem colOf_getD (S : List (List Int)) (j i : Nat) : (colOf (α := α) S j).getD i 0 = ((entry S i j : Int) : α) := by
+  unfold colOf entry
+  simp only [List.getD_eq_getElem?_getD, List.getElem?_map]
+  cases h : (S[j]?.getD [])[i]? <;> simp [h]
+
+theorem colOf_length (S : List (List Int)) (j : Nat) : (colOf (α := α) S j).length = (S.getD j []).length := by
+  simp [colOf]
+
+/-- **one step keeps the counts whole and non-negative** (plain mass-action network, uniforms in `(0, 1]`). -/
+theorem jumpStep_natState (g : Gen σ α) (m : SimModel α) (ks : List Nat) (Rs : List (List Nat)) (n : Nat)
+    (times : List α) (s : LoopState σ α) (hnet : MANet m ks Rs n) (hrate : ∀ k ∈ ks, 0 ≤ vecGet s.p k)
+    (hu : ∀ st : σ, 0 < (g st).1 ∧ (g st).1 ≤ 1) (h : NatState n s) :
+    NatState n (jumpStep g m times s) ∧ (jumpStep g m times s).p = s.p := by
+  have hrule : applyRules m.rules s.x s.p 1 s.t m.dt s.ruleStep = (s.x, s.p) := by simp [hnet.norules, applyRules]
+  have hprops : m.propensities .stoch s.x s.p 1 s.t =
+      m.props.map (fun q => q.stoch (vecGet s.x) (vecGet s.p) s.t) := by
+    unfold SimModel.propensities computePropensities
+    simp [hnet.plain, Propensity.evalMode]
+  have hrec : ∀ k, ∀ r ∈ s.rows ++ replicateRow k s.x, IsNatVec r := by
+    intro k r hr
+    simp only [List.mem_append, replicateRow, List.mem_replicate] at hr
+    rcases hr with hr | ⟨_, rfl⟩
+    · exact h.rows r hr
+    · exact h.cur
+  unfold jumpStep
+  simp only [hrule]
+  split_ifs with h1 h2 h3 h4
+  · exact ⟨natState_arrive times n s s.p _ _ h, rfl⟩
+  · exact ⟨natState_arrive times n s s.p _ _ h, rfl⟩
+  · exact ⟨⟨h.cur, h.len, hrec _⟩, rfl⟩
+  · -- the firing branch
+    refine ⟨⟨?_, ?_, hrec _⟩, rfl⟩
+    all_goals
+      set a := m.propensities .stoch s.x s.p 1 s.t with ha
+      set q := (g (g s.g).2).1 * arraySum a with hq
+      have hlenA : a.length = Rs.length := by
+        rw [hprops, List.length_map, hnet.props, List.length_zipWith, hnet.lens, min_self]
+      have hget : ∀ j (hj : j < a.length), a[j] =
+          (createMassAction (α := α) (ks.getD j 0) (Rs.getD j [])).stoch (vecGet s.x) (vecGet s.p) s.t := by
+        intro j hj
+        have hjR : j < Rs.length := hlenA ▸ hj
+        have hjk : j < ks.length := hnet.lens ▸ hjR
+        simp only [hprops, hnet.props, List.getElem_map, List.getElem_zipWith]
+        simp [List.getD_eq_getElem?_getD, List.getElem?_eq_getElem hjk, List.getElem?_eq_getElem hjR]
+      have hposA : ∀ v ∈ a, 0 ≤ v := by
+        intro v hv
+        obtain ⟨j, hj, rfl⟩ := List.mem_iff_getElem.mp hv
+        rw [hget j hj]
+        have hjk : j < ks.length := hnet.lens ▸ (hlenA ▸ hj)
+        exact (massAction_stoch_nat _ _ s.x s.p s.t h.cur (hrate _ (by
+          rw [List.getD_eq_getElem?_getD, List.getElem?_eq_getElem hjk]; exact List.getElem_mem hjk))).1
+      have hL : 0 < arraySum a := h3
+      have hq0 : 0 < q := mul_pos (hu _).1 hL
+      have hqle : q ≤ a.sum := by
+        rw [hq, arraySum_eq_sum]
+        have := mul_le_mul_of_nonneg_right (hu (g s.g).2).2 (le_of_lt (arraySum_eq_sum a ▸ hL))
+        simpa using this
+      obtain ⟨j, hj, hsel, _, _⟩ := sampleDiscrete_interval a q hposA hq0 hqle
+      have hne : a[j] ≠ 0 := fun hz => zero_weight_not_chosen a q hposA hq0 hqle j hj hz hsel
+      have hjR : j < Rs.length := hlenA ▸ hj
+      have hjk : j < ks.length := hnet.lens ▸ hjR
+      have henough := (massAction_stoch_nat (ks.getD j 0) (Rs.getD j []) s.x s.p s.t h.cur (hrate _ (by
+          rw [List.getD_eq_getElem?_getD, List.getElem?_eq_getElem hjk]; exact List.getElem_mem hjk))).2
+        (by rw [← hget j hj]; exact hne)
+      have hchoice : (sampleDiscreteFrom a q).toNat = j := by rw [hsel]; simp
+      rw [hchoice]
+      have hcU := (colOf_length (α := α) m.U j).trans (hnet.colsU j hjR)
+      have hcD := (colOf_length (α := α) m.D j).trans (hnet.colsD j hjR)
+    · -- every entry of the new state is a natural number
+      intro v hv
+      obtain ⟨i, hi, rfl⟩ := List.mem_iff_getElem.mp hv
+      have hlen := addCol_length' s.x (colOf m.U j) (colOf m.D j) n h.len hcU hcD
+      have hin : i < n := hlen ▸ hi
+      have hval := addCol_getD s.x (colOf (α := α) m.U j) (colOf m.D j) n i h.len hcU hcD hin
+      rw [List.getD_eq_getElem?_getD, List.getElem?_eq_getElem hi] at hval
+      simp only [Option.getD_some] at hval
+      rw [hval, colOf_getD, colOf_getD]
+      obtain ⟨k, hk, hcount⟩ := henough i
+      have hcons := hnet.consume j hjR i hin
+      unfold vecGet at hk
+      rw [hk]
+      refine ⟨((k : Int) + (entry m.U i j + entry m.D i j)).toNat, ?_⟩
+      have hnonneg : 0 ≤ (k : Int) + (entry m.U i j + entry m.D i j) := by
+        have : ((List.count i (Rs.getD j []) : Nat) : Int) ≤ (k : Int) := by exact_mod_cast hcount
+        omega
+      have hcast : ((((k : Int) + (entry m.U i j + entry m.D i j)).toNat : Nat) : α) =
+          (((k : Int) + (entry m.U i j + entry m.D i j) : Int) : α) := by
+        rw [← Int.cast_natCast, Int.toNat_of_nonneg hnonneg]
+      rw [hcast]; push_cast; ring
+    · exact addCol_length' s.x (colOf m.U j) (colOf m.D j) n h.len hcU hcD
+  · exact ⟨⟨h.cur, h.len, hrec _⟩, rfl⟩
+
+end NonNeg
 
 /-! ### Non-vacuity -/
 example : Reach [[(1 : ℚ), -1], [-2, 1]] [3, 0] [0, 1] := by
